@@ -239,7 +239,8 @@ class Interp:
         v = self.get(st, pl)
         if v is not None:
             return v
-        if self.trackable(pl) and op[0] == 'c':
+        if self.trackable(pl) and (op[0] == 'c' or len(pl) == 1):
+            # (a scalar temporary that is moved keeps its value: `_flag = move _tmp` still "is" _tmp for the path conditions)
             ty = self.type_of_place(pl)
             if ty in ('bool', 'usize', 'u64', 'i64', 'u32', 'i32', 'isize', 'u8'):
                 return ('same', pkey(pl))
@@ -357,6 +358,10 @@ class Interp:
                 elif op_ in ('Eq', 'Ne'):
                     eq = (a[1] == b[1])
                     val = ('c', 'true' if (eq == (op_ == 'Eq')) else 'false')
+        if val is None and r in ('bin', 'un') and len(s['lhs']) == 1 and self.fn.locals[s['lhs'][0]]['ty'] == 'bool' \
+                and getattr(self, '_pos', None) is not None and len(self.fn.defs().get(s['lhs'][0], [])) > 1:
+            # one of several definitions of a flag (`a == b && c == d`): remember which one is current on this path
+            val = ('site', self._pos[0], self._pos[1])
         self.set(st, s['lhs'], val)
 
     def mut_capture(self, st, pl, closure_def):
@@ -436,6 +441,10 @@ class Interp:
         outs = self.call_effect(st2, t)
         res = []
         for (s3, val, sub) in outs:
+            if val is None and len(t['dest']) == 1 and self.fn.locals[t['dest'][0]]['ty'] == 'bool':
+                # an untracked bool result: remember which call produced it, so that a later branch on a multiply-assigned flag
+                # (`a && f(x)`) can be described by that call in the path conditions
+                val = ('site', b, 'T')
             dst = self.set(s3, t['dest'], val)
             if sub and self.trackable(dst):
                 for suffix, v in sub:
@@ -722,8 +731,10 @@ class Interp:
 
     def step_block(self, node_state, b):
         st = dict(node_state)
-        for s in self.fn.blocks[b]['s']:
+        for i, s in enumerate(self.fn.blocks[b]['s']):
+            self._pos = (b, i)
             self.assign(st, s)
+        self._pos = None
         return st
 
     def succ_states(self, st, b):
